@@ -209,6 +209,22 @@ pub(crate) fn safe_collection_len<T>(total_items: usize) -> AvroResult<()> {
     }
 }
 
+/// Bound the memory a `HashMap` needs to hold `total_items` entries of type `T`.
+///
+/// A `HashMap` allocates a power of two of buckets that is filled for at most 7/8, and a control
+/// byte per bucket, so it requests more memory than `total_items * size_of::<T>()`.
+pub(crate) fn safe_hashmap_len<T>(total_items: usize) -> AvroResult<()> {
+    let buckets = total_items
+        .checked_mul(8)
+        .map(|n| n / 7 + 1)
+        .and_then(usize::checked_next_power_of_two)
+        .ok_or(Details::IntegerOverflow)?;
+    let desired = buckets
+        .checked_mul(size_of::<T>() + 1)
+        .ok_or(Details::IntegerOverflow)?;
+    safe_len(desired).map(|_| ())
+}
+
 /// Set whether the serializer and deserializer should indicate to types that the format is human-readable.
 ///
 /// This function only changes the setting once. On subsequent calls the value will stay the same
